@@ -299,7 +299,7 @@ class Tree:
                           os.path.join(d, "libcrypt.so.1"))
         return d
 
-    def so_program(self, flavour, src, name):
+    def so_program(self, flavour, src, name, defs="-DVW_SO", libs=""):
         """Link harness/<src> (-DVW_SO, no wrappers) against the freshly built
         libcrypt.so.1 of `flavour` (so / so-asan)."""
         cc, cflags, ldflags = FLAVOURS[flavour]
@@ -309,10 +309,10 @@ class Tree:
             if os.path.exists(out):
                 return out
             gd = self.gendir()
-            cmd = ("%s -std=gnu11 -D_GNU_SOURCE -DVW_SO %s -I%s -I%s %s -o %s.tmp %s -L%s -l:libcrypt.so.1 "
-                   "-Wl,-rpath,%s -lpthread -ldl" % (
-                       cc, cflags.replace("-fPIC -DPIC", ""), gd, HARNESS,
-                       os.path.join(HARNESS, src), out, ldflags, d, d))
+            cmd = ("%s -std=gnu11 -D_GNU_SOURCE %s %s -I%s -I%s %s -o %s.tmp %s -L%s -l:libcrypt.so.1 "
+                   "-Wl,-rpath,%s -lpthread -ldl %s" % (
+                       cc, defs, cflags.replace("-fPIC -DPIC", ""), gd, HARNESS,
+                       os.path.join(HARNESS, src), out, ldflags, d, d, libs))
             _run(cmd, shell=True)
             os.rename(out + ".tmp", out)
         return out
